@@ -1,0 +1,56 @@
+//go:build verif
+
+// Contracts for package provider (generic ammo providers), checked by /verif/govc. Comment-only: no code.
+package provider
+
+//@ iface AmmoDecoder.Decode
+//@ fieldfunc DecodeProvider.newDecoder
+//@ ensures iff(result1 == nil, result0 != nil)
+
+// Acquire hands out what the provider queued, and reports the end of ammo when the queue is closed; Release returns to the pool.
+//@ func (p *AmmoQueue) Acquire
+//@ props C03 C08
+//@ nilsafe
+//@ ensures [queued-ammo-or-end-of-ammo] result0 == result_of(<-p.OutQueue, 0) && result1 == result_of(<-p.OutQueue, 1)
+
+//@ func (p *AmmoQueue) Release
+//@ props C03
+//@ nilsafe
+//@ env pooltype(p.InputPool, box(0))
+//@ modifies nothing
+
+// The generic decoding provider: at most `limit` ammo are queued; end of data, the limit and cancellation end the run
+// without error; a decode failure fails it; the queue is closed on every exit.
+//@ func (p *DecodeProvider) Run
+//@ props C08 C13
+//@ nilsafe
+//@ requires p.OutQueue != nil && !closed(p.OutQueue) && p.conf.Source != nil && p.newDecoder != nil && ctx != nil
+//@ ghost sent0 = sent(p.OutQueue)
+//@ loop 0 invariant [queued-count] ammoNum == sent(p.OutQueue) - sent0 && ammoNum >= 0 && decoder != nil && p.OutQueue == old(p.OutQueue) && imp(p.conf.Limit > 0, ammoNum <= p.conf.Limit)
+//@ loop 0 invariant [no-decode-failure-so-far] imp(calls(decoder.Decode) > 0, result_of(decoder.Decode, 0) == nil)
+//@ loop 0 step [after-cancellation-an-iteration-ends-only-by-delivering] imp(iter(done(ctx)), sent(p.OutQueue) == iter(sent(p.OutQueue)) + 1)
+//@ ensures [queue-closed-on-every-exit] closed(old(p.OutQueue))
+//@ ensures [never-beyond-the-limit] imp(p.conf.Limit > 0, sent(p.OutQueue) - sent0 <= p.conf.Limit)
+//@ ensures [source-failure-is-reported] imp(result_of(p.conf.Source.OpenSource, 1) != nil, err != nil && cause(err) == cause(result_of(p.conf.Source.OpenSource, 1)))
+//@ ensures [decode-failure-is-reported] imp(calls(decoder.Decode) > 0 && result_of(decoder.Decode, 0) != nil && result_of(decoder.Decode, 0) != io.EOF, err != nil)
+//@ ensures [end-of-data-is-a-clean-end] imp(calls(decoder.Decode) > 0 && result_of(decoder.Decode, 0) == io.EOF, err == nil)
+//@ at send p.OutQueue assert [the-ammo-just-decoded] value == ammo
+//@ at call ioutil2.NewMultiPassReader assert [the-configured-number-of-passes] arg(passes) == p.conf.Passes && arg(r) == box(result_of(p.conf.Source.OpenSource, 0))
+
+// The counting provider: 0, 1, 2, ... up to the limit; closed on every exit.
+//@ func (n *num) Run
+//@ props C08
+//@ nilsafe
+//@ requires n.sink != nil && !closed(n.sink) && ctx != nil
+//@ ghost i0 = n.i
+//@ ghost sent0 = sent(n.sink)
+//@ loop 0 invariant n.i - i0 == sent(n.sink) - sent0 && n.sink == old(n.sink) && n.limit == old(n.limit) && imp(n.limit > 0 && i0 <= n.limit, n.i <= n.limit)
+//@ at send n.sink assert [next-number] value == box(n.i)
+//@ ensures [closed-on-every-exit] closed(old(n.sink))
+//@ ensures [never-beyond-the-limit] imp(n.limit > 0 && i0 <= n.limit, n.i <= n.limit)
+//@ ensures [always-a-clean-end] result == nil
+
+//@ func (n *num) Acquire
+//@ props C08
+//@ nilsafe
+//@ ensures a == result_of(<-n.sink, 0) && ok == result_of(<-n.sink, 1)
